@@ -102,6 +102,7 @@ type Engine struct {
 	files      []*ContractFile
 	bufT       types.Type
 	pkgInvs    map[string][]Clause
+	implCache  map[string]map[string]bool
 }
 
 func typeKey(t types.Type) string { return types.TypeString(types.Unalias(t), nil) }
